@@ -3,6 +3,7 @@ Lemmas/NoIntFix.lean — C13, "no internal error": address assignment, `fix_addr
 table, and the back end as a whole (`back_ne_internal`).
 -/
 import CoCoVerif.Lemmas.NoIntPcr
+import CoCoVerif.Lemmas.EvalListsNoInt
 
 namespace CoCo.Asm
 open CoCo
@@ -534,11 +535,14 @@ theorem back_ne_internal {ss0 : List Stmt} (hpar : ∀ s ∈ ss0, Parsed s) : ba
             obtain ⟨hlen4, hall4⟩ := hok4 ss4 h4
             have hlen4' : ss4.length = ss0.length := by rw [hlen4, hlen3]
             have hni5 := fixAll_good hlen4' hall4 ss4 0 (fun j s h => by simpa using h)
-            cases h5 : fixAll ss4 0 ss4 with
+            have hx5 : ∀ x, fixAll ss4 0 ss4 = .ok x → x.length = ss0.length ∧ ∀ s ∈ x, s.pkg.address.Good 0 :=
+              fun x hx => ⟨by rw [(fixAll_ok hx).1, hlen4'], fixAll_addr_good hx (fun s hs => (hall4 s hs).1.addr)⟩
+            have hni5' : fixAllL t ss4 ≠ .internal := fixAllL_ne_internal ht hni5 hx5
+            cases h5 : fixAllL t ss4 with
             | ok ss5 =>
               dsimp only
-              have hlen5 : ss5.length = ss0.length := by rw [(fixAll_ok h5).1, hlen4']
-              have haddr5 := fixAll_addr_good h5 (fun s hs => (hall4 s hs).1.addr)
+              have hlen5 : ss5.length = ss0.length := by rw [fixAllL_length h5, hlen4']
+              have haddr5 := fixAllL_addr_good h5 (fun x hx => (hx5 x hx).2)
               obtain ⟨hni6, hok6⟩ := evalSyms_good hlen5 haddr5 ht t ht
               cases h6 : evalSyms ss5 t t with
               | ok t1 =>
@@ -551,7 +555,7 @@ theorem back_ne_internal {ss0 : List Stmt} (hpar : ∀ s ∈ ss0, Parsed s) : ba
               | internal => exact absurd h6 hni6
               | diverged => simp
             | diag => simp
-            | internal => exact absurd h5 hni5
+            | internal => exact absurd h5 hni5'
             | diverged => simp
           | diag => simp
           | internal => exact absurd h4 hni4
